@@ -31,8 +31,8 @@ from simkit.rng import seed_globals  # noqa: E402
 from simkit.world import InvalidScenario, Monitor, Violation, repo_exception_sig, result, run_sim  # noqa: E402
 
 PROPERTY = "C14"
-RUNS = {"quick": 6000, "thorough": 600_000}
-WALL = {"quick": 45, "thorough": 1500}
+RUNS = {"quick": 5000, "thorough": 600_000}
+WALL = {"quick": 55, "thorough": 1500}
 BATCH = {"quick": 50, "thorough": 400}
 SELFTEST_RUNS = 12
 RULE = (
@@ -674,7 +674,13 @@ def _judge_tx(R: TxRun, counters: dict):
                 f"tx {r['id']} ({iso}) read {k} during [{rd['inv']},{rd['ret']}] and got {got!r}; committed versions of the key "
                 f"(commit stamp, value, tx): {vs}")
     for k in R.keys:
-        final = R.store.get_sync(k)
+        try:
+            final = R.store.get_sync(k)
+        except Exception as exc:  # noqa: BLE001
+            esig = repo_exception_sig(exc)
+            if esig is None:
+                raise
+            return (f"C14/tx/{esig}", f"get_sync({k!r}) after the run: {exc!r}")
         if final != ver[k][-1][1]:
             return (f"C14/tx-final-state/{R.scls}/{iso}", f"after all commits key {k} holds {final!r}, last committed version is {ver[k][-1]}")
 
@@ -760,8 +766,14 @@ def run_tx(sc):
     seed_globals(sc.get("seed", 0) if isinstance(sc.get("seed", 0), int) else 0)
     R = TxRun(sc)
     sim = Simulation(entities=R.entities)
-    for k, v in R.initial.items():
-        R.store.put_sync(k, v)
+    try:
+        for k, v in R.initial.items():
+            R.store.put_sync(k, v)
+    except Exception as exc:  # noqa: BLE001  (public API, valid arguments: a repo exception is a violation)
+        esig = repo_exception_sig(exc)
+        if esig is None:
+            raise
+        return result(sig=f"C14/tx/{esig}", msg=f"put_sync of initial data: {exc!r}", klass=sc.get("klass", "tx"))
     for c in R.clients:
         st = c.spec.get("start_ns", 0)
         if isinstance(st, bool) or not isinstance(st, int) or st < 0:
